@@ -246,9 +246,17 @@ def canon(w):
     return tuple(out)
 
 
+PREBUILT = [('rebase', 'I1', ('I0',)), ('rebase', 'I2', ('I1', 'I0')), ('rebase', 'I3', ('I1',))]
+
+
 def run_hist(cfg, hist):
     w = World()
     w.max_observers = cfg.get('max_observers', 1)
+    if cfg.get('prebuilt'):
+        # start from a graph that already has a chain, a redundant edge
+        # (I2 lists I0 directly and through I1) and a second child of I1
+        for op in PREBUILT:
+            apply(w, op)
     for op in hist:
         if not apply(w, tuple(op)):
             return w, 'disabled'
@@ -317,6 +325,15 @@ def run(ctx):
                                            new_states_per_depth=r['per_level'])
         if r['frontier']:
             ctx.sample(dict(impl=impl, history=r['frontier'][len(r['frontier']) // 2]))
+        if ctx.unknown_viol():
+            break
+        # not from the flat initial graph: chain + redundant edge already there
+        cfg = dict(oracle='c02', maxb=1 if ctx.tier == 'quick' else 2, decl_ops=ctx.tier != 'quick', prebuilt=True)
+        r = bfs(ctx, impl, 'expand', cfg, 4, label='prebuilt')
+        ctx.add(states=r['states'], transitions=r['transitions'])
+        ctx.info['%s/prebuilt' % impl] = dict(depth=r['depth_done'], states=r['states'],
+                                              transitions=r['transitions'], fixpoint=r['fixpoint'],
+                                              initial_graph=PREBUILT)
         if ctx.unknown_viol():
             break
         # nested assignments: a dependent of one specification re-bases another
